@@ -1186,8 +1186,15 @@ func lacks(f *family, nodes []node, u user, c callT) string {
 				l = append(l, "p:sticky-foreign")
 			}
 
-			if b := findRole(nodes, "b"); b != nil && c.Op == "Rename" && p != nil && p.Mode&0o1000 != 0 && u.Uid != p.Uid && u.Uid != b.Uid {
-				l = append(l, "p:sticky-foreign-victim")
+			// the replaced entry is protected by the sticky bit of the directory
+			// that holds IT: q in the two-directory shapes, else p
+			vd, vname := p, "p"
+			if q != nil {
+				vd, vname = q, "q"
+			}
+
+			if b := findRole(nodes, "b"); b != nil && c.Op == "Rename" && vd != nil && vd.Mode&0o1000 != 0 && u.Uid != vd.Uid && u.Uid != b.Uid {
+				l = append(l, vname+":sticky-foreign-victim")
 			}
 
 			if c.Op == "RemoveAll" && leaf.Kind == "N" && leaf.Mode&0o1000 != 0 && u.Uid != leaf.Uid {
